@@ -83,11 +83,12 @@ def _augment(spec):
     config type whose fields have a non-trivial on-disk form (secret, bytes, digest), next to plain ones."""
     def leaf(kind, key, **opts):
         return {"kind": kind, "key": key, "req": False, "validator": None, "opts": opts, "default": {"mode": "none"}}
+    # field keys that are also names of Config attributes / methods are legal keys like any other
     item_children = [leaf("secure", "secret", method="best"), leaf("bytes", "blob", encoding="hex"), leaf("challenge", "pw", alg="sha256"),
-                     leaf("int", "n"), leaf("str", "label")]
+                     leaf("int", "n"), leaf("str", "label"), leaf("str", "save"), leaf("bool", "validate")]
     extra = [
         {"kind": "schemalist", "key": "zzitems", "children": item_children, "configtype": False, "req": False},
-        {"kind": "configtype", "key": "zzct", "children": [leaf("secure", "token", method="xor"), leaf("bytes", "raw", encoding="base64"),
+        {"kind": "configtype", "key": "zzct", "children": [leaf("secure", "token", method="xor"), leaf("bytes", "raw", encoding="base64"), leaf("str", "full_path"), leaf("int", "load"),
                                                            {"kind": "schemalist", "key": "subs", "children": [leaf("secure", "s", method="aes"), leaf("float", "f")], "configtype": True, "req": False}]},
     ]
     keep = [c for c in spec["children"] if not c["key"].startswith("zz")]
@@ -149,7 +150,7 @@ def _sanitize(world, cfg, node=None):
         key, kind = child["key"], child["kind"]
         if kind in ("virtual", "method"):
             continue
-        value = getattr(cfg, key)
+        value = cfg[key]
         if kind in ("schema", "configtype"):
             if isinstance(value, cc.Config):
                 _sanitize(world, value, child)
@@ -244,7 +245,7 @@ def compare(world, a, b, R, site, node=None, path=()):
         if kind in ("virtual", "method"):
             continue
         cpath = path + (key,)
-        va, vb = getattr(a, key), getattr(b, key)
+        va, vb = a[key], b[key]  # item access: a key may be the name of a Config method
         if kind in ("schema", "configtype"):
             if R.check(isinstance(vb, cc.Config), "equal", site + ":subconfig", "%s is %r after reload" % (".".join(cpath), vb)):
                 compare(world, va, vb, R, site, child, cpath)
@@ -321,7 +322,7 @@ def _encoded_nondefault(world, cfg, node=None):
         kind = child["kind"]
         if kind in ("virtual", "method"):
             continue
-        v = getattr(cfg, child["key"])
+        v = cfg[child["key"]]
         if kind in ("schema", "configtype"):
             nested = True
             n2, e2 = _encoded_nondefault(world, v, child) if isinstance(v, cc.Config) else (False, False)
@@ -541,7 +542,7 @@ def _required_unset(world, cfg, node=None):
         kind = child["kind"]
         if kind in ("virtual", "method"):
             continue
-        v = getattr(cfg, child["key"])
+        v = cfg[child["key"]]
         if kind in ("schema", "configtype"):
             if isinstance(v, cc.Config) and _required_unset(world, v, child):
                 return True
